@@ -77,7 +77,9 @@ func (v *Verifier) verifyFunc(fn *ssa.Function, c *Contract) (err error) {
 			g := e.evalBool(en.Expr)
 			v.addOb(fmt.Sprintf("post:%s#%d", key, i+1), "post", en.Text, s, g, false)
 		}
-		v.addOb("cover:"+key+":return", "cover", "some return is reachable under the precondition", s, TTrue, true)
+		if !c.MayExit {
+			v.addOb("cover:"+key+":return", "cover", "some return is reachable under the precondition", s, TTrue, true)
+		}
 		// frame
 		allowed := append(append([]string{}, c.Modifies...), c.Allocs...)
 		if c.Pure {
@@ -98,7 +100,7 @@ func (v *Verifier) verifyFunc(fn *ssa.Function, c *Contract) (err error) {
 	for _, s := range states {
 		v.explore(s)
 	}
-	if _, ok := v.obls["cover:"+key+":return"]; !ok {
+	if _, ok := v.obls["cover:"+key+":return"]; !ok && !c.MayExit {
 		// no path returned: still register the cover so that it fails
 		v.obls["cover:"+key+":return"] = &Obligation{Name: "cover:" + key + ":return", Kind: "cover", Cover: true, Func: key, Fn: fn,
 			Clause: "some return is reachable under the precondition"}
